@@ -1,7 +1,7 @@
 (* C26 -- proofs over Model/C26.v.  Every invariant is shown to be preserved by each
    atomic action and lifted to all interleavings with Sched.interleave_invariant. *)
 From Coq Require Import ZArith List Bool Lia ZifyBool.
-From PV Require Import Bytes Sched C26.
+From PV Require Import Bytes Sched C26_gen C26.
 Import ListNotations.
 Open Scope Z_scope.
 
@@ -293,6 +293,13 @@ Proof.
        | E : is_nil _ = false |- _ => apply is_nil_false in E
        | E : negb _ = true |- _ => apply negb_true_iff in E
        | E : negb _ = false |- _ => apply negb_false_iff in E
+       end.
+  (* feed: whichever way the generated flag says the event is set *)
+  all: try match goal with
+       | E : _ \/ feed_sets_event_always || _ = false |- _ =>
+           destruct E as [E|E]; [congruence|];
+           apply orb_false_iff in E as [_ E]; apply negb_false_iff, is_nil_true in E;
+           destruct Hr as [Hr|Hr]; [congruence | apply I; auto]
        end.
   all: try (rewrite He; reflexivity).
   all: try (destruct Hr as [Hr|Hr]; [congruence|]; try congruence).
